@@ -139,7 +139,10 @@ func (t *Queue[T]) Shutdown(optionalShutdownFlags ...ShutdownFlag) {
 	// empty the queue if the corresponding flag was set
 	if t.shutdownFlags.HasBits(CancelPendingElements) {
 		for range len(t.heap) {
-			heap.Pop(&t.heap)
+			//nolint:forcetypeassert // false positive, we know that the element is of type *QueueElement[T]
+			droppedElement := heap.Pop(&t.heap).(*generalheap.HeapElement[HeapKey, *QueueElement[T]])
+			// nobody will ever poll the dropped element: mark it as canceled, so that its owner can tell
+			droppedElement.Value.closeCancel()
 		}
 	}
 
@@ -195,6 +198,8 @@ func (t *Queue[T]) Poll(waitIfEmpty bool) T {
 			// abort if the pending elements are supposed to be canceled
 			if t.shutdownFlags.HasBits(CancelPendingElements) {
 				timeutil.CleanupTimer(timer)
+				// the polled element is dropped: mark it as canceled, so that its owner can tell
+				polledElement.Value.Cancel()
 				var empty T
 
 				return empty
